@@ -257,8 +257,28 @@ func (l *lockCore) lock(kind string) {
 // data I read under the lock" races live -- so that the race detector gets to see them.
 var FreeYieldOnUnlock atomic.Bool
 
+// misuse reports an Unlock / RUnlock of a lock that is not held. The real sync package ends the
+// process for that ("fatal error: sync: Unlock of unlocked RWMutex", not recoverable); here it is
+// a panic in the offending goroutine, which the harness reports as a crash of Helios code. Not
+// during teardown: a task that is being ended returns from Lock without the lock, and its
+// deferred Unlock must stay harmless.
+func (l *lockCore) misuse(what string) {
+	if dying.Load() {
+		return
+	}
+	if t := curTask(); t != nil && t.isExiting() {
+		return
+	}
+	panic("sync: " + what + " (a fatal error, not a panic, in a real process: it ends Helios)")
+}
+
 func (l *lockCore) unlock() {
 	l.mu.Lock()
+	if !l.w {
+		l.mu.Unlock()
+		l.misuse("Unlock of unlocked lock")
+		return
+	}
 	l.w = false
 	l.holderW = nil
 	l.holderG = 0
@@ -325,9 +345,12 @@ func (l *lockCore) rlock() {
 
 func (l *lockCore) runlock() {
 	l.mu.Lock()
-	if l.r > 0 {
-		l.r--
+	if l.r == 0 {
+		l.mu.Unlock()
+		l.misuse("RUnlock of unlocked RWMutex")
+		return
 	}
+	l.r--
 	if l.readersG != nil {
 		g := getg()
 		if l.readersG[g] > 1 {
